@@ -7,8 +7,8 @@ RULE = ('applications with 0..4 host sub-apps x 0..6 routes each (+ default), pa
         'multiple and adjacent */overlapping/shadowing; Host absent/exact/wildcard-matching/with port/non-matching; paths '
         'matching several/one/no route; non-trivial = at least two candidate routes or hosts match')
 NEEDS_TOKIO = True
-ASSUMPTIONS = ['WebSocket dispatch (call_websocket_handler) has the same shape over websocket_routes; it is exercised end to end '
-               'in the C11/C01 loopback scenarios, not through the hook']
+ASSUMPTIONS = ['WebSocket dispatch (call_websocket_handler) is exercised end to end over loopback (threaded runtime): each WebSocket '
+               'route handler writes its own identity on the stream; no upgrade = connection closed without data']
 
 
 def glob(p, t):
@@ -75,6 +75,27 @@ def run(ctx):
         if b != a:
             ctx.report({'line': line}, 'impl=' + b, 'rule=' + want, cls='route-mismatch', failing_input=(b != want),
                        what='get_handler selects %s but the routing rule gives %s' % (b, want))
+    # WebSocket upgrade requests end to end over loopback: same rule over the WebSocket routes (call_websocket_handler)
+    if not ctx.replay:
+        wl, wmeta = [], []
+        for _ in range(600 if ctx.tier == 'thorough' else 40):
+            nsub = rng.randint(0, 3)
+            # App::with_host refuses the bare `*` host pattern (that is what the default sub-app is for)
+            subs = [(rng.choice([h for h in HOST_PATS if h != '*']), [rng.choice(ROUTE_PATS) for _ in range(rng.randint(0, 3))]) for _ in range(nsub)]
+            default = [rng.choice(ROUTE_PATS) for _ in range(rng.randint(0, 3))]
+            host = rng.choice([h for h in HOSTS if h] + [None])
+            uri = rng.choice([p for p in PATHS if '*' not in p and 'é' not in p])
+            enc = lambda l: ','.join(hx(x) for x in l) if l else '-'
+            sarg = '|'.join('%s:%s' % (hx(h), enc(rs)) for h, rs in subs) if subs else '-'
+            wl.append('wsroute %s %s %s %s' % ('-' if host is None else hx(host), hx(uri), enc(default), sarg))
+            wmeta.append((host, uri, default, subs))
+        wm, wim = ctx.both(wl)
+        for line, me, a, b in zip(wl, wmeta, wm, wim):
+            want = oracle(*me)
+            ctx.count('ws:' + b.split(':')[0])
+            if b != a or b != want:
+                ctx.report({'line': line, 'kind': 'websocket'}, 'impl=' + b, 'rule=' + want, cls='ws-route-mismatch', failing_input=(b != want),
+                           what='WebSocket upgrade dispatched to %s but the routing rule gives %s' % (b, want))
     ctx.tokio_twin(lines[::2], m[::2], 'route-mismatch-tokio', what='tokio get_handler differs from the routing rule')
     for k in (0, len(lines) // 2):
         if k < len(lines):
